@@ -160,16 +160,15 @@ Section WithFacts.
 
   (** * _lookup_field *)
   Definition lookup_step (context : value) (part : string) : res (option value) :=
-    (* if part not in context: return None ; context = context.get(part, {}) *)
+    (* if not isinstance(context, Mapping) or part not in context: return None, None
+       context = context.get(part, {}) *)
     match context with
     | VDict d =>
         match assoc_get (KStr part) d with
         | Some v => Ok (Some v)
         | None => Ok None
         end
-    | VStr s => if is_substring part s then Raise AttributeError "_lookup_field" else Ok None
-    | VList l => if existsb (py_eq (VStr part)) l then Raise AttributeError "_lookup_field" else Ok None
-    | _ => Raise TypeError "_lookup_field"
+    | _ => Ok None
     end.
 
   Fixpoint lookup_parts (context : value) (parts : list string) : res (option value) :=
@@ -278,30 +277,43 @@ Section WithFacts.
       | Some false => do st' <- file_error x st field "UNALLOWED_VALUE" [v] []; plain st'
       end.
 
+  Fixpoint filter_in (l : list value) (c : value) : res (list value) :=
+    match l with
+    | [] => Ok []
+    | a :: l' =>
+        match py_in a c with
+        | None => Raise TypeError "_validate_forbidden"
+        | Some b => do r <- filter_in l' c; Ok (if b then a :: r else r)
+        end
+    end.
+
   Definition h_contains (x : ctx) (st : vstate) (c : value) (field : key) (v : value) : res hout :=
-    if negb (is_iterable v) then plain st
-    else
-      let expected := if negb (is_iterable c) || is_str c
-                      then (if hashable c then Some [c] else None)
-                      else py_set c in
-      match expected, py_set v with
-      | Some ex, Some vs =>
-          match set_diff ex vs with
-          | [] => plain st
-          | missing => do st' <- file_error x st field "MISSING_MEMBERS" [VList missing] []; plain st'
-          end
-      | _, _ => Raise TypeError "_validate_contains"
-      end.
+    match py_iter v with
+    | None => plain st            (* if not isinstance(value, Iterable): return *)
+    | Some present =>
+        let expected := if negb (is_iterable c) || is_str c
+                        then (if hashable c then Some [c] else None)
+                        else py_set c in
+        match expected with
+        | Some ex =>
+            match filter (fun e => negb (existsb (py_eq e) present)) ex with
+            | [] => plain st
+            | missing => do st' <- file_error x st field "MISSING_MEMBERS" [VList missing] []; plain st'
+            end
+        | None => Raise TypeError "_validate_contains"
+        end
+    end.
 
   Definition h_forbidden (x : ctx) (st : vstate) (c : value) (field : key) (v : value) : res hout :=
     if is_sequence v && negb (is_str v) then
-      match py_set v, py_set c with
-      | Some vs, Some cs =>
-          match set_inter vs cs with
+      match py_iter v with
+      | None => plain st
+      | Some l =>
+          do fb <- filter_in l c;
+          match fb with
           | [] => plain st
-          | fb => do st' <- file_error x st field "FORBIDDEN_VALUES" [VList fb] []; plain st'
+          | _ => do st' <- file_error x st field "FORBIDDEN_VALUES" [VList fb] []; plain st'
           end
-      | _, _ => Raise TypeError "_validate_forbidden"
       end
     else
       match py_in v c with
@@ -461,7 +473,7 @@ Section WithFacts.
                 | [] => plain st
                 | _ => do st' <- file_error x st field "BAD_ITEMS" [] ces; plain st'
                 end
-          | _, _ => Raise TypeError "_validate_items"
+          | _, _ => plain st   (* not a sized iterable: the rule does not apply *)
           end
       | _ => Raise TypeError "_validate_items"
       end.
